@@ -363,6 +363,65 @@ def do_whole_array(hub, U, letters, rng):
             pass
 
 
+def do_close_labels_and_copies(hub, U, letters, rng):
+    """(a) float labels that lie closer together than any sensible tolerance (trace concentrations, large neighbouring numbers):
+    every label addresses its own entries; (b) a key used on an array and then, spelled the same, on a copy of it that holds other
+    values: each read / write concerns the array it is made on"""
+    fd = hub.fd
+    import copy as _copy
+
+    conc = fd.Dimension(letter="k", name="concentration", items=[1e-9, 1e-8, 1.5e-8, 2e-9])
+    big = fd.Dimension(letter="n", name="number", items=[1000000.0, 1000001.0, 999999.5])
+    x = fd.FlodymArray(dims=fd.DimensionSet(dim_list=[conc, big]), values=gen.values_one("dyadic", rng, (4, 3)))
+    sub_c = fd.Dimension(letter="K", name="some concentrations", items=[1.5e-8, 1e-9])
+    for k in ({"k": 1e-8}, {"k": 1e-9, "n": 1000001.0}, {"number": 999999.5}, {"k": sub_c}, {"n": [1000001.0, 1000000.0]}, 2e-9, (1.5e-8, 1000000.0)):
+        try:
+            x[k]
+        except Exception:
+            pass
+        t = x.copy()
+        try:
+            t[k] = -2.5
+        except Exception:
+            pass
+    for l_ in ("k", "n"):
+        try:
+            x.split(l_)
+        except Exception:
+            pass
+    if letters:
+        y0 = fd.FlodymArray(dims=gen.dimset(fd, U, letters), values=gen.values_one("dyadic", rng, gen.shape_of(U, letters)))
+        it0 = U[letters[0]].items[0]
+        keys = [it0, (it0,), {letters[0]: it0}] + ([(it0, U[letters[-1]].items[-1])] if len(letters) > 1 else [])
+        for k in keys:
+            try:
+                y0[k]
+            except Exception:
+                pass
+        for how in (lambda a: a.copy(), _copy.copy, lambda a: a.model_copy(), _copy.deepcopy):
+            try:
+                y1 = how(y0)
+                y1.values = gen.values_one("dyadic", rng, gen.shape_of(U, letters)) + 4096.0 if how is _copy.copy or y1.values is y0.values else y1.values
+                if y1.values is not y0.values:
+                    y1.values[...] = gen.values_one("dyadic", rng, gen.shape_of(U, letters)) + 4096.0
+            except Exception:
+                continue
+            for k in keys:
+                try:
+                    y1[k]
+                except Exception:
+                    pass
+                try:
+                    y1[k] = 0.5
+                except Exception:
+                    pass
+            for k in keys:
+                try:
+                    y0[k]
+                except Exception:
+                    pass
+
+
 def do_errors(hub, U, letters, rng):
     fd = hub.fd
     x = fd.FlodymArray(dims=gen.dimset(fd, U, letters), values=gen.values_one("dyadic", rng, gen.shape_of(U, letters)))
